@@ -11,7 +11,7 @@
 From Coq Require Import String ZArith List Bool.
 Import ListNotations.
 From NV Require Import Mech.Syntax Mech.Machine Mech.Spec Mech.Invariants Mech.SpecFacts
-  Mech.Refine Mech.Broken.
+  Mech.Refine Mech.RefineFull Mech.Broken.
 
 (* In every configuration reachable by the machine (any run of `eval`, `eval_full`, `:query`,
    started on a heap without black-holed thunks) the update frames on the stack reference
@@ -81,6 +81,32 @@ Theorem C12_session_equiv :
     | OBound | OData _ => False
     end.
 Proof. exact session_equiv_thm. Qed.
+
+(* The property for a full evaluation (`eval_full`, :print) as the observed input: the data tree
+   (or error class, or divergence) is that of the call-by-name deep evaluation [sfull] of the
+   stand-alone program. *)
+Theorem C12_session_equiv_full :
+  forall (h : list input) (k : nat) (e : tm),
+    match snd (sess_step (fst (sess_run empty_session h)) (IFull k e)) with
+    | OData d => exists n, spec_run_full n (defs_of h) e = Val d
+    | OErr EInfRec => forall n, spec_run_full n (defs_of h) e = OOF
+    | OErr c => exists n, spec_run_full n (defs_of h) e = Err c
+    | OBudget => True
+    | OBound | OOk _ => False
+    end.
+Proof. exact session_equiv_full_thm. Qed.
+
+(* The property for `:query x.p1...pn` as the observed input. *)
+Theorem C12_session_equiv_query :
+  forall (h : list input) (k : nat) (x : string) (path : list string),
+    match snd (sess_step (fst (sess_run empty_session h)) (IQuery k x path)) with
+    | OOk ob => exists n v, spec_run_query n (defs_of h) x path = Val v /\ sobs v = ob
+    | OErr EInfRec => forall n, spec_run_query n (defs_of h) x path = OOF
+    | OErr c => exists n, spec_run_query n (defs_of h) x path = Err c
+    | OBudget => True
+    | OBound | OData _ => False
+    end.
+Proof. exact session_equiv_query_thm. Qed.
 
 (* The same against the fresh machine: whenever neither run exhausts its budget, the input has
    the same outcome in the session after h as the stand-alone program on an empty session. *)
